@@ -3,6 +3,7 @@
 EXTENDS EventQueue
 
 KindsAll == {"Unplug", "Plugin", "Recompute"}
+KindsExt == KindsAll \cup {"Urgent", "Base"}      \* plus plain events with the smallest / the default precedence (sampled plans)
 Ts2 == 0..2
 Ts3 == 0..3
 EvArg(T) == [ts : T, kind : KindsAll]
@@ -37,9 +38,9 @@ GenView == <<hist, nops, fin>>
 \* and repeats the retrievals, so that plans are not dominated by insertions.  The behaviours are
 \* behaviours of Spec: SimNext => Next.
 Live(S) == IF fin THEN {} ELSE S
-SimAdd        == \E a \in Live(EvArg(Ts)) : Add(a.ts, a.kind)
+SimAdd        == \E a \in Live([ts : Ts, kind : Kinds]) : Add(a.ts, a.kind)
 SimAddMany    == \E b \in Live(Batches) : AddMany(b)
-SimAddManyFail == \E b \in Live(Batches) : \E k \in 0..(Len(b) - 1) : AddManyFail(b, k)
+SimAddManyFail == \E b \in Live(Batches) : Len(b) >= 2 /\ AddManyFail(b, Len(b) - 1)
 SimGetCurrent == \E t \in Live(Probes) : GetCurrentAt(t)
 SimQuery      == \E q \in Live({1, 2, 3}) : CASE q = 1 -> QLen [] q = 2 -> QEmpty [] q = 3 -> QLastTs
 SimNext ==
